@@ -265,6 +265,9 @@ OnHEnter(mon, ev) ==
                        "C02", "message handled after one whose send began after it was accepted")
                 \cup B(M.postStop, "C02", "message sent after stop() returned was handled")
                 \cup B(A.killArmed /\ A.afterKill >= 1, "C06", "more than one handler started after kill() returned")
+                \* after on_run returned Err the next (and last) hook is on_stop(killed = false)
+                \cup B(A.runErr, "C08", "a message was handled after on_run had returned Err")
+                \cup B(A.runErr, "C04", "a message was handled after on_run had returned Err")
                 \cup B(~Has(mon.msgs, m), "C01", "handler ran for a message nobody sent")
                 \cup B(M.a # a /\ Has(mon.msgs, m), "C01", "message handled by the wrong actor")
            m1 == UpdM(mon, m, [handled |-> M.handled + 1])
@@ -281,6 +284,8 @@ OnHEnter(mon, ev) ==
                 \cup B(mon.strict /\ A.killOld /\ ~ev.killed /\ ~A.runErr, "C04", "kill() had returned but on_stop got killed=false")
                 \cup B(mon.strict /\ A.killOld /\ ~ev.killed /\ ~A.runErr, "C06", "kill() had returned but on_stop got killed=false")
                 \cup B(clean /\ lost # {}, "C01", "accepted before stop()/last drop but not handled before on_stop")
+                \* (the same condition is C07's "finishes the work accepted before that point")
+                \cup B(clean /\ lost # {}, "C07", "on_stop(killed=false) entered although work accepted before the stop / last drop was not finished")
                 \* (needs the complete handle history, which only cooperative traces record)
                 \cup B(mon.strict /\ clean /\ ~A.stopReq /\ A.userStrong > 0, "C07", "actor stopped although referenced and never stopped/killed")
                 \cup B(A.runErr /\ ev.killed, "C08", "on_stop(killed=true) after an on_run error")
@@ -327,6 +332,7 @@ OnRunPoll(mon, ev) ==
       b == B(A.startOut # "ok" \/ A.stopN > 0 \/ A.panicIn # "" \/ A.inHook # "" \/ A.joined,
              "C04", "on_run polled outside the running phase")
            \cup B(A.runDisabled, "C08", "on_run polled after it returned Ok(false)")
+           \cup B(A.runErr, "C08", "on_run polled after it returned Err")
            \cup B(mon.strict /\ (A.oldAcc \cap Untaken(mon, a)) # {}, "C08", "on_run polled while a message was waiting")
            \cup B(mon.strict /\ A.oldStop, "C08", "on_run polled while a stop request was waiting")
            \cup B(mon.strict /\ A.killOld, "C08", "on_run polled while a kill was pending")
